@@ -115,6 +115,10 @@ pub struct Spec {
     /// block; clones go to the next slot (see `gens::Placed`)
     #[serde(default)]
     pub place: u8,
+    /// which thread executes the run: 0 = the worker's long-lived main thread, 1 = a freshly spawned unnamed
+    /// thread (its thread-locals have never been touched), 2 = a freshly spawned thread with a name
+    #[serde(default)]
+    pub thread: u8,
 }
 
 #[derive(Clone, Debug, PartialEq)]
